@@ -269,10 +269,10 @@ impl Connection {
     # ---- the send half of a stream is reset when it is dropped without having been finished (connection.rs) -------------
     t += C.item(CONN, 'struct SendStream', derives=False)
     t += 'impl SendStream {\n'
-    t += C.fn(CONN, 'impl Drop for SendStream :: fn drop', 'SendStream::drop', ['C02'], pub=True,
+    t += C.fn(CONN, 'impl Drop for SendStream :: fn drop', 'SendStream::drop', ['C02', 'C12'], pub=True,
               sig_rewrites=[('fn drop(', 'fn drop_impl(')], spec='''
     ensures
-        !old(self).0.finished ==> final(self).0.reset_code is Some, // @OBL SendStream::drop::unfinished_stream_is_reset [C02] a send half that is dropped before it was finished is RESET, never silently closed: a response or request cut short by an error can not be mistaken by the other side for a complete one
+        !old(self).0.finished ==> final(self).0.reset_code is Some, // @OBL SendStream::drop::unfinished_stream_is_reset [C02,C12] a send half that is dropped before it was finished is RESET, never silently closed: a response or request cut short by an error can not be mistaken by the other side for a complete one
         old(self).0.finished ==> *final(self) == *old(self), // @OBL SendStream::drop::finished_stream_untouched [C02] a finished stream is left as it is
 ''')
     t += '}\n'
